@@ -45,6 +45,19 @@ def fn_sources(names):
     return out
 
 
+class KnownSigs:
+    """membership test for the listed known findings of one property: exact 'sig', or 'sig_re' (a regular expression which must match the WHOLE
+    signature — used where one finding shows under several option variants whose names are part of the signature)"""
+
+    def __init__(self, entries):
+        import re
+        self.exact = frozenset(k['sig'] for k in entries if 'sig' in k)
+        self.res = [re.compile(k['sig_re']) for k in entries if 'sig_re' in k]
+
+    def __contains__(self, sig):
+        return isinstance(sig, str) and (sig in self.exact or any(r.fullmatch(sig) for r in self.res))
+
+
 def main():
     modname, cellname = sys.argv[1], sys.argv[2]
     scale = float(sys.argv[3]) if len(sys.argv) > 3 else 1.0
@@ -52,7 +65,7 @@ def main():
     from .h import load_known
     mod, cell = find_cell(modname, cellname)
     prop = getattr(mod, 'PROPERTY', '')
-    known = frozenset(k['sig'] for k in load_known() if k.get('status') == 'known' and k.get('property') == prop)
+    known = KnownSigs([k for k in load_known() if k.get('status') == 'known' and k.get('property') == prop])
     res = sx.explore(cell.fn, budget_s=cell.budget * scale, per_path_s=cell.per_path, max_paths=cell.max_paths,
                      n_samples=cell.samples, known_sigs=known, reset=cell.reset)
     res['cell'] = cell.name
